@@ -89,8 +89,13 @@ class UserTypeError(Tagged, TypeError):
     """an ordinary exception of user code that happens to be a TypeError (what `None > 0` raises)"""
 
 
-EXC_CLASSES = [UserError, UserBaseError, UserKeyboardInterrupt, UserGeneratorExit, UserCancelled, UserError, UserError,
-               UserError, UserTypeError]
+class UserStopIteration(Tagged, StopIteration):
+    """what `next(iter(xs))` raises on an empty iterable (residue 5; only raised in sync programs: a StopIteration
+    that leaves a coroutine becomes a RuntimeError by the language's own rule)"""
+
+
+EXC_CLASSES = [UserError, UserBaseError, UserKeyboardInterrupt, UserGeneratorExit, UserCancelled, UserStopIteration,
+               UserError, UserError, UserTypeError]
 
 
 def exc_class(tag):
